@@ -1657,9 +1657,9 @@ fn main() {
     fb!(D13, "D13"; D61, "D61"; D127, "D127"; D251, "D251"; D509, "D509"; D8191, "D8191"; D65521, "D65521");
     fb!(F7x2, "Fp2(D7)"; F251x2, "Fp2(D251)"; F7x3, "Fp3(D7)"; F61x3, "Fp3(D61)");
     if ctx.thorough() {
-        fb!(F2039x2, "Fp2(D2039)");
+        field_bytes::<F2039x2, SWFlags>(&mut ctx, "Fp2(D2039)");
     }
-    ctx.bound("bytes_field", "toy fields F_13,61,127,251,509,8191,65521, Fp2 over F_7,F_251 (thorough: F_2039), Fp3 over F_7,F_61 x {EmptyFlags,TEFlags,SWFlags}: every byte string of every length 0..=L (L <= 3; thorough L <= 4), deserialize_with_flags and the 4 plain modes");
+    ctx.bound("bytes_field", "toy fields F_13,61,127,251,509,8191,65521, Fp2 over F_7,F_251 (thorough: F_2039 with SWFlags), Fp3 over F_7,F_61 x {EmptyFlags,TEFlags,SWFlags}: every byte string of every length 0..=L (L <= 3; thorough L <= 4), deserialize_with_flags and the 4 plain modes");
     // ---- (A) shipped curves and pairing outputs
     shipped_cases(&mut ctx);
     std::process::exit(ctx.finish());
